@@ -117,7 +117,16 @@ func cmdRun(args []string) int {
 		}
 	}
 
-	if err := generateHarnessInputs(*repo, filepath.Join(vd, "harness")); err != nil {
+	// files generated from /repo's current source go to a directory private to this run (checks may
+	// run concurrently, possibly against different trees)
+	gd, gerr := os.MkdirTemp("", "symgo-gen-")
+	if gerr != nil {
+		fmt.Fprintln(os.Stderr, "generate:", gerr)
+		return 2
+	}
+	genDir = gd
+	defer os.RemoveAll(gd)
+	if err := generateHarnessInputs(*repo, gd); err != nil {
 		fmt.Fprintln(os.Stderr, "generate:", err)
 		return 2
 	}
@@ -254,10 +263,10 @@ func cmdRun(args []string) int {
 		}
 		// classify violations
 		code := rep.classify(P, hs, ex, hr, vd, *repo, knownIDs, *noReplay)
-		if code > exit {
-			if !(exit == 1 && code == 2) {
-				exit = code
-			}
+		if code == 1 {
+			exit = 1 // a violation reproduced against the real build stands whatever else was inconclusive
+		} else if code > exit && exit != 1 {
+			exit = code
 		}
 		if sc := rep.selfTest(hs, ex, hr, vd, *repo, knownIDs); sc > exit && exit != 1 && !*noReplay {
 			exit = sc
